@@ -110,10 +110,12 @@ func mkUpdateBody(supi string, chargingID int32, rg int32, req, used int32, lsn 
 	return b
 }
 
-func mkCreateBody(supi string, chargingID int32) []byte {
+func mkCreateBody(supi string, chargingID int32) []byte { return mkCreateBodyNamed(supi, chargingID, "smf") }
+
+func mkCreateBodyNamed(supi string, chargingID int32, name string) []byte {
 	now := time.Now()
 	r := models.ChfConvergedChargingChargingDataRequest{SubscriberIdentifier: supi, ChargingId: chargingID,
-		NfConsumerIdentification: &models.ChfConvergedChargingNfIdentification{NFName: "smf", NodeFunctionality: "SMF"},
+		NfConsumerIdentification: &models.ChfConvergedChargingNfIdentification{NFName: name, NodeFunctionality: "SMF"},
 		InvocationTimeStamp:      &now, InvocationSequenceNumber: 1, NotifyUri: env.Sink.URL + "/notify/" + supi,
 		MultipleUnitUsage: []models.ChfConvergedChargingMultipleUnitUsage{{RatingGroup: 1, RequestedUnit: &models.RequestedUnit{TotalVolume: 10}}}}
 	b, _ := json.Marshal(r)
@@ -157,7 +159,18 @@ func oneBurst(c C09Case, rep int) (sig, msg string, nt bool) {
 		}
 		return session{supi, chargingIDSeq, refOf(hd.Get("Location"))}, true
 	}
-	if c.Kind != "same-new-supi" {
+	if c.Kind == "prefix-supi-creates" {
+		// two subscribers whose SUPIs are prefix-related, with consumer names that compensate: SUPI+name is the same string
+		a := env.NewSupi()
+		b := a + "1"
+		env.Track(b)
+		for _, x := range []string{a, b} {
+			env.SetAccount(x, 1, c.Bal, fmt.Sprint(c.Cost))
+			credited[x] = c.Bal
+		}
+		subs = append(subs, a, b)
+	}
+	if c.Kind != "same-new-supi" && c.Kind != "prefix-supi-creates" {
 		for i := 0; i < nSubs; i++ {
 			supi := env.NewSupi()
 			env.SetAccount(supi, 1, c.Bal, fmt.Sprint(c.Cost))
@@ -181,6 +194,13 @@ func oneBurst(c C09Case, rep int) (sig, msg string, nt bool) {
 	for i := 0; i < c.N; i++ {
 		lsn++
 		switch c.Kind {
+		case "prefix-supi-creates":
+			chargingIDSeq++
+			if i%2 == 0 {
+				reqs = append(reqs, &burstReq{method: "POST", path: prefix + "/chargingdata", body: mkCreateBodyNamed(subs[0], chargingIDSeq, "1x"), kind: "create", supi: subs[0], lsn: chargingIDSeq})
+			} else {
+				reqs = append(reqs, &burstReq{method: "POST", path: prefix + "/chargingdata", body: mkCreateBodyNamed(subs[1], chargingIDSeq, "x"), kind: "create", supi: subs[1], lsn: chargingIDSeq})
+			}
 		case "same-new-supi":
 			if i == 0 {
 				supi := env.NewSupi()
@@ -338,12 +358,16 @@ func oneBurst(c C09Case, rep int) (sig, msg string, nt bool) {
 		}
 	}
 	// references unique, and every acknowledged session can still be updated and released
-	refs := map[string]bool{}
+	refs := map[string]string{}
 	for _, s := range sessions {
-		if refs[s.supi+"|"+s.ref] {
-			return "duplicate-reference/concurrent", fmt.Sprintf("two acknowledged creates returned the same reference %s", s.ref), nt
+		if other, dup := refs[s.ref]; dup {
+			cls := "concurrent"
+			if other != s.supi {
+				cls = "concurrent-across-subscribers"
+			}
+			return "duplicate-reference/" + cls, fmt.Sprintf("two acknowledged creates (subscribers %s and %s) returned the same reference %s", other, s.supi, s.ref), nt
 		}
-		refs[s.supi+"|"+s.ref] = true
+		refs[s.ref] = s.supi
 	}
 	for _, s := range sessions {
 		if released[s.supi+"|"+s.ref] > 0 {
@@ -370,10 +394,16 @@ func judgeC09(c C09Case) *h.Verdict {
 	v := &h.Verdict{}
 	old := runtime.GOMAXPROCS(c.Procs)
 	defer runtime.GOMAXPROCS(old)
-	v.Label("kind:" + c.Kind)
 	v.Label(fmt.Sprintf("procs:%d", c.Procs))
 	_ = verifapi.LoggedErrors()
-	for rep := 0; rep < c.Reps; rep++ {
+	kinds := []string{c.Kind}
+	if c.Kind == "all" {
+		kinds = allKinds
+	}
+	for rep := 0; rep < c.Reps*len(kinds); rep++ {
+		c := c
+		c.Kind = kinds[rep%len(kinds)]
+		v.Label("kind:" + c.Kind)
 		sig, msg, nt := oneBurst(c, rep)
 		if nt {
 			v.NonTrivial = true
@@ -392,10 +422,13 @@ func judgeC09(c C09Case) *h.Verdict {
 	return v
 }
 
+var allKinds = []string{"same-sub", "same-new-supi", "different-subs", "mixed", "same-session-releases", "prefix-supi-creates"}
+
 func genC09(t *rapid.T) C09Case {
-	return C09Case{Kind: rapid.SampledFrom([]string{"same-sub", "same-new-supi", "different-subs", "mixed", "same-session-releases"}).Draw(t, "kind"),
+	// every case runs every workload kind ("all"); a single kind can be named in a replay file
+	return C09Case{Kind: "all",
 		N: rapid.SampledFrom([]int{2, 3, 4, 8, 16}).Draw(t, "n"), Procs: rapid.SampledFrom([]int{1, 2, 4, 16}).Draw(t, "procs"),
-		Reps: h.Scale(4, 25), Bal: rapid.SampledFrom([]int64{0, 500, 100000, 1 << 40}).Draw(t, "bal"), Cost: rapid.SampledFrom([]int{1, 3}).Draw(t, "cost"),
+		Reps: h.Scale(2, 8), Bal: rapid.SampledFrom([]int64{0, 500, 100000, 1 << 40}).Draw(t, "bal"), Cost: rapid.SampledFrom([]int{1, 3}).Draw(t, "cost"),
 		Req: int32(rapid.SampledFrom([]int{1, 100, 1000}).Draw(t, "req")), Used: int32(rapid.SampledFrom([]int{0, 1, 50, 100}).Draw(t, "used"))}
 }
 
